@@ -355,15 +355,13 @@ Definition call_get_interchain (c : ichain) (k : svc) : bool :=
   match i_rec c k with Some _ => true | None => false end.
 Definition call_get_ibtp (c : ichain) (i : txid) (isReq : bool) : bool :=
   match (if isReq then i_req c i else i_rcpt c i) with Some _ => true | None => false end.
-(** [DeleteInterchain]: with audit on the audit event cannot be built for the deleted record and
-    the call fails.  The executor then reverts the transaction — but its undo log only covers
-    accounts first touched by this very transaction (the ledger swaps its change log after every
-    transaction while account objects created earlier in the block keep the old one), so the
-    deletion persists when an earlier transaction of the block already used the interchain
-    contract ([touched]). *)
+(** [DeleteInterchain]: with audit on the audit event cannot be built for the deleted record, the
+    call fails and the executor reverts it (since the ledger's change log is reset in place —
+    repaired by the state-ledger work package — the revert is complete whatever ran before in the
+    block; [touched] is kept only for the signature). *)
 Definition call_delete (cfg : Defects) (w : world) (c : ichain) (k : svc) (touched : bool) : ichain * option N :=
   if d_delete_interchain cfg then
-    if w_audit w then (if touched then del_rec c k else c, Some E_AUDIT) else (del_rec c k, None)
+    if w_audit w then (c, Some E_AUDIT) else (del_rec c k, None)
   else (c, Some E_TM_PERM).
 (** [Register] of a local service *)
 Definition call_register (w : world) (c : ichain) (k : svc) : ichain * option N :=
